@@ -29,7 +29,7 @@ def main():
             na.append({"property_id": pid, "reason": NOT_APPLICABLE.get(pid, NOT_YET)})
     man = {
         "version": 1,
-        "setup_cmd": "coq/build.sh " + " ".join("props/%s.vo" % c for c in sorted(CLAIMED)),
+        "setup_cmd": "python3 harness/extract_sites.py > /dev/null && coq/build.sh " + " ".join("props/%s.vo" % c for c in sorted(CLAIMED)),
         "hooks": {
             "guard": "MSDM_VERIF",
             "enable": "no source hooks: the harness observes msdm through its public event-listener classes and by wrapping module-level names inside the harness process (MSDM_VERIF=1 is exported to the implementation subprocess but nothing in /repo reads it)",
